@@ -1,5 +1,5 @@
 #!/bin/bash
-# usage: tools_mutant.sh <patch.diff> <check args...>   — runs ./check against a scratch worktree of /repo with the patch applied
+# usage: tools/mutant.sh <patch.diff> <check args...>   — runs ./check against a scratch worktree of /repo with the patch applied
 set -e
 PATCH=$(realpath "$1"); shift
 WT=$(mktemp -d /tmp/wt-XXXXXX)
